@@ -603,6 +603,15 @@ def cfdivRNegate (w u n lc c : Nat) (neg : Bool) (s : St) : R St := do
   let s ← s.storeAt wp 0 (toLimbs (lc + 1) (B ^ (lc + 1) - val l))   -- :121
   cfdivRMask w wp lc c neg s                                  -- :123-144
 
+/-- cfdiv_r_2exp.c:90-100: must the result be negated?  (|u| < 2^cnt, or a skipped low limb is non-zero, or the partial
+    limb has a low bit set) — read through the early `up`, before any reallocation -/
+def cfdivRNeedNeg (up n lc c : Nat) (s : St) : R Bool :=
+  if n ≤ lc then pure true else do                            -- :90-91
+    let lo ← s.loadAt up 0 lc                                 -- :94-96
+    if val lo ≠ 0 then pure true else do
+      let x ← limbAt s up lc                                  -- :99
+      pure (decide (x % 2 ^ c ≠ 0))
+
 /-- cfdiv_r_2exp (w, u, cnt, dir) of mpz/cfdiv_r_2exp.c:36-145 (`dir = 1`: mpz_cdiv_r_2exp, `dir = -1`: mpz_fdiv_r_2exp).
     `up = PTR (u)` is fetched early (:57) "MPZ_REALLOC(w) below is only when w!=u": true on the truncating side (:59-84), and
     the `negate:` side re-fetches it after its realloc. -/
@@ -627,11 +636,7 @@ def cfdiv_r_2exp (w u cnt : Nat) (dir : Int) (s : St) : R St := do
         if n ≤ lc then pure (s.setSize w usize)               -- :78-82
         else cfdivRMask w wp lc c (decide (usize < 0)) s
     else do                                                   -- :85 round away from zero
-      let needNeg ← (if n ≤ lc then pure true else do         -- :90-91
-          let lo ← s.loadAt up 0 lc                           -- :94-96
-          if val lo ≠ 0 then pure true else do
-            let x ← limbAt s up lc                            -- :99
-            pure (decide (x % 2 ^ c ≠ 0)))
+      let needNeg ← cfdivRNeedNeg up n lc c s                 -- :90-100
       if !needNeg then pure (s.setSize w 0)                   -- :103-104
       else cfdivRNegate w u n lc c (decide (usize ≥ 0)) s     -- :106-123
 
